@@ -333,10 +333,20 @@ impl ChipEnv for EnvLr {
         if w.iter().any(|b| *b != 0) {
             return; // the LR11xx drives nothing meaningful while a command is being written
         }
+        // Stat1 bits 3..1 below CMD_OK: the command failed and the response that follows is not valid - the chip does
+        // not hand out the data that was asked for (UM.LR1110 3.3.2); the filler is no chip buffer content
+        let failed = (self.status >> 1) & 0x07 < 2;
         if w.is_empty() {
             // first byte of a read transaction: Stat1; without a pending response Stat2 and IrqStatus follow
             if let Some(b) = r.first_mut() {
                 *b = self.status;
+            }
+            if failed && self.pending.is_some() {
+                self.pending = None;
+                for b in r.iter_mut().skip(1) {
+                    *b = 0x5A;
+                }
+                return;
             }
             if self.pending.is_none() {
                 let f = self.irq.to_be_bytes();
@@ -351,7 +361,11 @@ impl ChipEnv for EnvLr {
         }
         // the bytes after Stat1: the response of the pending command
         if let Some(cmd) = self.pending.take() {
-            self.answer(&cmd, r);
+            if failed {
+                r.fill(0x5A);
+            } else {
+                self.answer(&cmd, r);
+            }
         }
     }
     fn commit(&mut self, w: &[u8], had_read: bool) {
